@@ -37,7 +37,14 @@ def build_frame(case):
         if case["format"] == "PDB":
             return g4.pdb_frame(case["rows"])
         seed = case.get("emit_seed")
-        return g4.cif_frame(case["rows"], random.Random(seed) if seed is not None else None)
+        df = g4.cif_frame(case["rows"], random.Random(seed) if seed is not None else None)
+        if case.get("subset_head") is not None:
+            # a row selection of a parsed table (what splitter does per model): categorical columns keep the
+            # categories of the rows that were dropped
+            fmt = df.attrs.get("format")
+            df = df.iloc[: case["subset_head"]].copy()
+            df.attrs["format"] = fmt
+        return df
     if src == "overflow":
         cols, _ = g4.overflow_cols(random.Random(case["seed"]), case["kind"], case.get("quick", False), case.get("side"))
         return g4.cif_frame_direct(cols)
@@ -101,6 +108,12 @@ def py_spec(fits, rows, rows2):
     return "ok"
 
 
+def py_fits(rows):
+    """the statement's limits on every row: serial <= 99999, one-character chain id, residue number <= 9999"""
+    return bool(rows) and all(r["serial"] is not None and r["resSeq"] is not None and 0 <= r["serial"] <= 99999
+                              and len(r["chain"]) == 1 and r["resSeq"] <= 9999 for r in rows)
+
+
 def counts(rows):
     chains = []
     seen = set()
@@ -154,7 +167,10 @@ def real(case):
         out["rows2"] = rows2 if len(rows2) <= 3000 else None
         out["wire2"] = [g4.wire(r) for r in rows2] if all(g4.wire_ok(r) for r in rows2) else None
         out["wire"] = [g4.wire(r) for r in rows] if out["wire_ok"] else None
-        out["spec"] = py_spec(out["canwrite"] is True, rows, rows2)
+        # "a table that already fits is returned unchanged": whether it fits is read off the rows themselves
+        # (the three limits the statement names), not only off can_write_pdb's own answer
+        out["fits_by_rows"] = py_fits(rows)
+        out["spec"] = py_spec(out["canwrite"] is True or out["fits_by_rows"], rows, rows2)
         if case.get("readback", True):
             try:
                 text = write_pdb(df2)
@@ -189,6 +205,22 @@ def build_cases(ctx):
             kw["nmodels"] = 1
         rows = g4.random_table(rng, **kw)
         cases.append({"source": "gen", "format": "mmCIF", "rows": rows, "emit_seed": rng.randrange(1 << 30), "family": "rename:small"})
+    # row selections of tables whose dropped rows overflow the limits (the selection itself fits)
+    for i in range(ctx.pick(24, 300)):
+        rows = [r for r in g4.random_table(rng) if g4.within_limits(r)]
+        if not rows:
+            continue
+        extra = []
+        for r in rng.sample(rows, min(len(rows), rng.randint(1, 3))):
+            k = rng.randrange(3)
+            if k == 0:
+                extra.append(dict(r, chain=rng.choice(["A-2", "AA", "Bx"])))
+            elif k == 1:
+                extra.append(dict(r, resSeq=10000 + rng.randrange(500)))
+            else:
+                extra.append(dict(r, serial=100000 + rng.randrange(500)))
+        cases.append({"source": "gen", "format": "mmCIF", "rows": rows + extra, "subset_head": len(rows),
+                      "emit_seed": rng.randrange(1 << 30), "family": "selection-of-overflowing"})
     # hand-made minimal shapes
     base = {"record": "ATOM", "serial": 1, "name": "P", "altLoc": "", "resName": "G", "chain": "AA", "resSeq": 1, "iCode": "",
             "x": 1000, "y": -2000, "z": 3, "occ": 100, "b": 2050, "element": "P", "charge": "", "model": 1}
